@@ -469,3 +469,66 @@ def feedback_ops(res):
     except Exception as e:  # noqa: BLE001
         bad.append(f"using the result as kernel input raised {type(e).__name__}: {e}")
     return bad
+
+
+class RealWorker:
+    """Persistent subprocess running the real back ends; a crash or hang becomes a reported case and
+    the worker is restarted (forking the large parent process per problem was the bottleneck)."""
+
+    def __init__(self):
+        self.p = None
+
+    def _start(self):
+        import subprocess
+        import sys
+        from pathlib import Path
+
+        self.p = subprocess.Popen([sys.executable, str(Path(__file__).resolve().parent / "real_worker.py")],
+                                  stdin=subprocess.PIPE, stdout=subprocess.PIPE, text=True, bufsize=1)
+
+    def run(self, text, fs, inputs_list, backend="llvm", feedback=False, capacity=None, timeout=120):
+        import json
+        import select
+
+        if self.p is None or self.p.poll() is not None:
+            self._start()
+        req = {"text": text, "fs": fs, "backend": backend, "feedback": feedback, "capacity": capacity,
+               "inputs_list": [{n: ([[list(c), v] for c, v in cv.items()], list(dims)) for n, (cv, dims) in ins.items()} for ins in inputs_list]}
+        try:
+            self.p.stdin.write(json.dumps(req) + "\n")
+            self.p.stdin.flush()
+        except BrokenPipeError:
+            rc = self.p.wait()
+            self.p = None
+            return ("crash", -rc)
+        rl, _, _ = select.select([self.p.stdout], [], [], timeout)
+        if not rl:
+            self.p.kill()
+            self.p.wait()
+            self.p = None
+            return ("timeout",)
+        line = self.p.stdout.readline()
+        if not line:
+            rc = self.p.wait()
+            self.p = None
+            return ("crash", -rc if rc < 0 else rc)
+        res = json.loads(line)
+        if res[0] == "ok":
+            outs = []
+            for o in res[1]:
+                if o[0] == "ok":
+                    levels = [tuple(lv) if lv[0] == "d" else ("s", lv[1], lv[2]) for lv in o[4]]
+                    outs.append(("ok", tuple(o[1]), tuple(o[2]), tuple(o[3]), levels, o[5], o[6] if len(o) > 6 else []))
+                else:
+                    outs.append(tuple(o))
+            return ("ok", outs)
+        return tuple(res)
+
+    def close(self):
+        if self.p is not None:
+            try:
+                self.p.stdin.close()
+                self.p.wait(timeout=5)
+            except Exception:  # noqa: BLE001
+                self.p.kill()
+            self.p = None
